@@ -59,6 +59,19 @@ def cases(tier, seed=0):
     fam = grammars.feature_set(3) + grammars.feature_set(1)
     A = grammars.single_rule_family(3)
     fam += rng.sample(A, 150 if tier == 'quick' else 800) + grammars.two_level_family(rng, 120 if tier == 'quick' else 800, 3)
+    # a nonterminal whose rules have sum-products with different sparsity patterns (a repeated external node = identity pattern, next to dense rules)
+    def R(lhs, nodes, edges, ext):
+        return {'lhs': lhs, 'nodes': nodes, 'edges': [{'label': l, 'att': a} for l, a in edges], 'ext': ext}
+    dom = {'T': 2, 'U': 3}
+    mixed = [
+        {'start': 'S', 'domains': dom, 'nonterminals': {'S': [], 'X': ['T', 'T']}, 'terminals': {'a': ['T'], 'b': ['T', 'T'], 'c': ['T', 'T']},
+         'rules': [R('S', ['T', 'T'], [('X', [0, 1]), ('c', [0, 1])], []), R('X', ['T'], [('a', [0])], [0, 0]), R('X', ['T', 'T'], [('b', [0, 1])], [0, 1])]},
+        {'start': 'X', 'domains': dom, 'nonterminals': {'X': ['T', 'T']}, 'terminals': {'a': ['T'], 'b': ['T', 'T']},
+         'rules': [R('X', ['T', 'T'], [('b', [0, 1])], [0, 1]), R('X', ['T'], [('a', [0])], [0, 0])]},
+        {'start': 'X', 'domains': dom, 'nonterminals': {'X': ['T', 'T']}, 'terminals': {'a': ['T'], 'd': ['T'], 'e': ['T']},
+         'rules': [R('X', ['T'], [('a', [0])], [0, 0]), R('X', ['T', 'T'], [('d', [0]), ('e', [1])], [0, 1]), R('X', ['T', 'T'], [('d', [1])], [0, 1])]},
+    ]
+    fam = mixed + fam
     cs = []
     seen = set()
     for gi, spec in enumerate(fam):
